@@ -91,6 +91,23 @@ def cases(tier, seed):
             fn = rng.choice(["compileTTF", "compileOTF"])
             hist.append({"fn": fn, "kwargs": _valid_opts(fn, rng.choice(STATIC_OPTS))})
         specs.append({"source": {"kind": "ufo", "ufo": ufo}, "lib": rng.choice(["ufoLib2", "defcon"]), "history": hist})
+    n_skip = 10 if tier == "quick" else 120
+    for k in range(n_skip):
+        # component graphs with random skip sets: skipped glyphs that reference skipped glyphs, mirrored references ...
+        glyphs = gen.glyphset(rng, nmin=4, nmax=7, kinds=["line", "quad"], unicodes=True)
+        names = sorted(glyphs)
+        skip = gen.subset(rng, names, 0.45)
+        if len(skip) == len(names):
+            skip = skip[:-1]
+        ufo = {"glyphs": glyphs, "order": names, "info": {"unitsPerEm": 1000, "ascender": 800, "descender": -200}}
+        kw = {}
+        if rng.random() < 0.5:
+            kw["skipExportGlyphs"] = skip
+        else:
+            ufo["lib"] = {"public.skipExportGlyphs": skip}
+        fn = rng.choice(["compileTTF", "compileOTF"])
+        specs.append({"source": {"kind": "ufo", "ufo": ufo}, "lib": rng.choice(["ufoLib2", "defcon"]),
+                      "history": [{"fn": fn, "kwargs": kw}] * rng.choice([1, 2])})
     n_fam = 10 if tier == "quick" else 100
     for k in range(n_fam):
         fam = gen.rich_family(rng, n_masters=rng.choice([2, 3]))
